@@ -43,6 +43,13 @@ structure View where
   /-- what ranks below every file at the next run: the OFX Home record (looked up under the id in effect then), else
       `DEFAULTS[opt]` -/
   low : Option CfgVal
+  /-- the same at the SAVING run: the OFX Home record under the id in effect then, else `DEFAULTS[opt]`
+      (read by `lossClass` only, not by `PersistOk`) -/
+  lowSave : Option CfgVal
+  /-- the saving command line gave the option (read by `lossClass` only) -/
+  cliSet : Bool
+  /-- the nickname had a section in ofxget.cfg or fi.cfg before the save (read by `lossClass` only) -/
+  known : Bool
   deriving Repr, DecidableEq
 
 /-- `value == defaults["clientuid"]` for the option `clientuid` -/
@@ -102,7 +109,8 @@ inductive Loss where
   | defaultSectionIgnored
   /-- by design: the first save draws the global CLIENTUID, in effect from the next run on -/
   | freshGlobalUid
-  /-- an empty value (not from the command line, section known) and the lower places say something else now: only
+  /-- an empty value (not from the command line, section known) and what ranks below the files differs between the
+      two runs (`low ≠ lowSave`): only
       possible when another option they depend on (the OFX Home id) did not persist -/
   | emptyFollows
   /-- known finding `clientuid-equal-to-global-not-saved` -/
@@ -129,9 +137,9 @@ def Loss.name : Loss → String
 def freshUid (w : View) : Bool :=
   w.isUid && w.sect.isNone && w.fiSect.isNone && w.dflt.isSome && w.dflt == w.globalUid
 
-/-- `none` when the option persists, else the way it is lost.  `cliSet`: the saving command line gave the option;
-    `known`: the nickname had a section in ofxget.cfg or fi.cfg before the save. -/
-def lossClass (T : Tables) (w : View) (cliSet known : Bool) : Option Loss :=
+/-- `none` when the option persists, else the way it is lost.  Every label has a test of its own; what passes none of
+    them is `unexpected` (excluded for the views of real runs by `C18_no_sixth_way`, by proof). -/
+def lossClass (T : Tables) (w : View) : Option Loss :=
   if PersistOk T w then none
   else if saves w then
     (match w.ty with
@@ -139,10 +147,11 @@ def lossClass (T : Tables) (w : View) (cliSet known : Bool) : Option Loss :=
      | .list => some .listMember
      | _ => some .unexpected)
   else if isNullArg w.v then
-    (if cliSet then some .cliNull
+    (if w.cliSet then some .cliNull
      else if freshUid w then some .freshGlobalUid
-     else if !known && w.dflt.isSome then some .defaultSectionIgnored
-     else some .emptyFollows)
+     else if !w.known && w.dflt.isSome then some .defaultSectionIgnored
+     else if w.low != w.lowSave then some .emptyFollows
+     else some .unexpected)
   else if uidSkip w then some .uidEqualsGlobal
   else some .unexpected
 
@@ -157,10 +166,11 @@ def ohRecord (lookup : Str → Option OhRec) : Option CfgVal → Map
 def lowOf (T : Tables) (lookup : Str → Option OhRec) (id : Option CfgVal) (k : Name) : Option CfgVal :=
   Spec.Ofxget.firstSetter [ohRecord lookup id, T.defaults] k
 
-/-- the view of option `k` when `ofxget … s --write` runs on FI database `fidb` and user file `user`
-    (`uuid`: what `OFXClient.uuid` would return), `v` being in effect -/
-def viewOf (fidb user : FileC) (uuid : Str) (s : Str) (k : Name) (ty : CfgTy) (v libDefault : CfgVal)
-    (low : Option CfgVal) : View :=
+/-- the view of option `k` when `ofxget … s --write` runs with command line `ns1` (the argparse namespace) on FI
+    database `fidb` and user file `user` (`uuid`: what `OFXClient.uuid` would return), `v` being in effect;
+    `lowSave` / `low`: what ranks below the files at the saving / at the next run -/
+def viewOf (ns1 : Map) (fidb user : FileC) (uuid : Str) (s : Str) (k : Name) (ty : CfgTy) (v libDefault : CfgVal)
+    (lowSave low : Option CfgVal) : View :=
   let r0 := reloadCfg (loadUser fidb user) user uuid
   let lib := loadLib fidb
   { ty := ty, v := v, isUid := k == "clientuid".toList,
@@ -168,6 +178,8 @@ def viewOf (fidb user : FileC) (uuid : Str) (s : Str) (k : Name) (ty : CfgTy) (v
     libDefault := libDefault,
     sect := (r0.sect s).lookup k, dflt := r0.defaults.lookup k,
     fiSect := (lib.sect s).lookup k, fiDflt := lib.defaults.lookup k,
-    low := low }
+    low := low, lowSave := lowSave,
+    cliSet := ((extractns ns1).lookup k).isSome,
+    known := (loadUser fidb user).hasSection s }
 
 end Ofx.Spec.Persist
